@@ -21,6 +21,7 @@ import traceback
 HERE = os.path.dirname(os.path.abspath(__file__))
 VERIF = os.path.dirname(HERE)
 sys.path.insert(0, HERE)
+sys.path.insert(0, os.path.join(VERIF, "contracts"))
 
 from pyvc import core  # noqa: E402
 from pyvc.core import And, Eq, Implies, Not, Or, SBool, SInt, SReal, SStr  # noqa: E402
